@@ -789,3 +789,126 @@ def gen_kidok():
     out += "def docTextAllSpacesClause : Bool := %s\n\n" % ("true" if ws_rule else "false")
     out += "end XV.Gen.KidOK\n"
     return out
+
+
+# ---- C02 (builder) ----
+# ------------------------------------------------------------------ XML character-class tables (C02 C03 C06 C09 C12 C13)
+CHAR_MASKS = ("gNCNameCharMask", "gFirstNameCharMask", "gNameCharMask", "gPlainContentCharMask",
+              "gSpecialStartTagCharMask", "gControlCharMask", "gXMLCharMask", "gWhitespaceCharMask")
+
+def char_masks():
+    rel = "util/XMLChar.hpp"
+    t = strip_c_comments(src(rel))
+    out = {}
+    for nm in CHAR_MASKS:
+        m = re.search(r"const\s+XMLByte\s+%s\s*=\s*([^;]+);" % nm, t)
+        if not m:
+            raise TranslateError("mask constant %s not found in %s" % (nm, rel))
+        out[nm] = c_int(m.group(1))
+    return out
+
+def char_tables():
+    """The two 65536-entry tables as Python lists (also used by tools/props/c02.py)."""
+    rel = "util/XMLChar.cpp"
+    t = src(rel)
+    # only the text before the NEED_TO_GEN_TABLE block holds the live tables
+    res = {}
+    for key, nm in (("10", "XMLChar1_0::fgCharCharsTable1_0"), ("11", "XMLChar1_1::fgCharCharsTable1_1")):
+        v = array_init(t, nm, rel)
+        if len(v) != 0x10000:
+            raise TranslateError("%s: expected 65536 entries, found %d" % (nm, len(v)))
+        if any(not 0 <= x < 256 for x in v):
+            raise TranslateError("%s: entry out of byte range" % nm)
+        res[key] = v
+    return res
+
+def page_literal(vals):
+    """256 bytes -> one Nat literal, entry i in bits 8i..8i+7"""
+    n = 0
+    for i, b in enumerate(vals):
+        n |= b << (8 * i)
+    return n
+
+@translate.register("CharTables")
+def gen_char_tables():
+    masks = char_masks()
+    tabs = char_tables()
+    out = HEADER + ("-- XMLChar1_0::fgCharCharsTable1_0 / XMLChar1_1::fgCharCharsTable1_1 (util/XMLChar.cpp) as 256 pages of 256\n"
+                    "-- entries; each page is one Nat literal, entry i of a page in bits 8i..8i+7.  Mask constants from util/XMLChar.hpp.\n"
+                    "namespace XV.Gen.CharTables\n\n")
+    for nm in CHAR_MASKS:
+        out += "def %s : Nat := %d\n" % (nm, masks[nm])
+    out += "\ndef masks : List Nat := [%s]\n\n" % ", ".join(CHAR_MASKS)
+    for key in ("10", "11"):
+        v = tabs[key]
+        pages = [page_literal(v[p * 256:(p + 1) * 256]) for p in range(256)]
+        out += "def pages%s : List Nat := [\n%s]\n\n" % (key, ",\n".join("  0x%x" % p for p in pages))
+    out += "end XV.Gen.CharTables\n"
+    return out
+
+# ------------------------------------------------------------------ error code enums (C02 C07 C19)
+def enum_codes(rel, cls):
+    t = strip_c_comments(src(rel))
+    m = re.search(r"class\s+%s\b.*?enum\s+Codes\s*\{(.*?)\}\s*;" % cls, t, flags=re.S)
+    if not m:
+        raise TranslateError("enum Codes of %s not found in %s" % (cls, rel))
+    codes = []
+    nxt = 0
+    for item in m.group(1).split(","):
+        item = item.strip()
+        if not item:
+            continue
+        mm = re.fullmatch(r"(\w+)(?:\s*=\s*(\S+))?", item)
+        if not mm:
+            raise TranslateError("%s: cannot read enumerator %r" % (rel, item))
+        val = c_int(mm.group(2)) if mm.group(2) else nxt
+        codes.append((mm.group(1), val))
+        nxt = val + 1
+    # severity predicates: must still be the closed-interval tests over the bound markers
+    preds = {}
+    for fn, lo, hi in (("isFatal", "F_LowBounds", "F_HighBounds"), ("isWarning", "W_LowBounds", "W_HighBounds"),
+                       ("isError", "E_LowBounds", "E_HighBounds")):
+        mm = re.search(r"static\s+bool\s+%s\s*\(\s*const\s+%s::Codes\s+toCheck\s*\)\s*\{\s*return\s*\(\s*\(\s*toCheck\s*>=\s*(\w+)\s*\)\s*&&\s*"
+                       r"\(\s*toCheck\s*<=\s*(\w+)\s*\)\s*\)\s*;\s*\}" % (fn, cls), t)
+        if not mm:
+            raise TranslateError("%s::%s is no longer `lo <= c && c <= hi` in %s" % (cls, fn, rel))
+        preds[fn] = (mm.group(1), mm.group(2))
+    names = dict(codes)
+    for fn, (lo, hi) in preds.items():
+        if lo not in names or hi not in names:
+            raise TranslateError("%s::%s refers to unknown bounds %s/%s" % (cls, fn, lo, hi))
+    return codes, preds
+
+def lean_enum(ns, codes, preds):
+    out = "namespace %s\n\n" % ns
+    out += "def codes : List (String × Nat) := [\n%s]\n\n" % ",\n".join('  ("%s", %d)' % c for c in codes)
+    for nm, v in codes:
+        if nm.endswith("Bounds"):
+            out += "def %s : Nat := %d\n" % (nm, v)
+    out += "\n"
+    for fn, (lo, hi) in sorted(preds.items()):
+        out += "def %s (c : Nat) : Bool := decide (%s ≤ c) && decide (c ≤ %s)\n" % (fn, lo, hi)
+    out += "\n-- every code by name (a theorem that names a code breaks when the code is renamed, removed or moved)\nnamespace C\n"
+    for nm, v in codes:
+        out += "def %s : Nat := %d\n" % (nm, v)
+    out += "end C\n"
+    out += "\nend %s\n" % ns
+    return out
+
+@translate.register("ErrCodes")
+def gen_err_codes():
+    out = HEADER + "-- enum order and severity bounds of framework/XMLErrorCodes.hpp (XMLErrs) and XMLValidityCodes.hpp (XMLValid)\n"
+    c, p = enum_codes("framework/XMLErrorCodes.hpp", "XMLErrs")
+    out += lean_enum("XV.Gen.ErrCodes.XMLErrs", c, p) + "\n"
+    c2, p2 = enum_codes("framework/XMLValidityCodes.hpp", "XMLValid")
+    out += lean_enum("XV.Gen.ErrCodes.XMLValid", c2, p2)
+    # flat names used by C19 (superset of the C19 builder's ErrCodes module, so that one generator serves both)
+    vals = dict(c)
+    out += "\nnamespace XV.Gen.ErrCodes\n\n"
+    for nm in ("W_LowBounds", "W_HighBounds", "E_LowBounds", "E_HighBounds", "F_LowBounds", "F_HighBounds",
+               "EntityExpansionLimitExceeded", "RecursiveEntity", "EntityNotFound"):
+        if nm not in vals:
+            raise TranslateError("framework/XMLErrorCodes.hpp: enumerator %s not found" % nm)
+        out += "def %s : Nat := %d\n" % (nm, vals[nm])
+    out += "\nend XV.Gen.ErrCodes\n"
+    return out
